@@ -63,6 +63,55 @@ func TestC16_LiveErrTail(t *testing.T) {
 	c := ev.New("C16", "live-errtail", "exploration")
 	t.Cleanup(c.Flush)
 	c.Rule("[OUTPUT json,] 1-8 valid keyspace/PING/ECHO commands (RESP+telnet, native, or mixed; a SET is forced into half of the cases) followed by one malformed frame of the catalogue (RESP/telnet/native/HTTP framing errors) and, in a quarter of the cases, trailing bytes; written uncut to twin A and to server B cut exactly in front of the malformed frame (30%), at one random point, at up to 12 points, or byte-at-a-time. Oracle: every valid command answered exactly once and in order (count from the stream model), then exactly one error line iff the last executed command came over RESP/telnet, nothing else, connection closed; canonical replies identical to the uncut run; the datasets of A and B identical afterwards (writes in front of the malformed frame are applied under every segmentation). Non-trivial: at least one cut at or before the malformed frame; distinct by (kind, malformed frame, cuts, prefix length, has write).")
+	// regression probe (live): SET + empty HTTP request in one segment vs cut in front of the request
+	for _, frame := range []string{"GET / HTTP/1.1\r\n\r\n", "POST / HTTP/1.1\r\nContent-Length: 0\r\n\r\n"} {
+		c.Case()
+		lc := liveCase{Kind: "resp", Stream: Stream{Elems: []Elem{
+			{Proto: "resp", Args: []string{"SET", "probe", "p", "POINT", "1", "2"}},
+			{Proto: "bad", Raw: frame, Err: "invalid HTTP request"},
+		}}}
+		cut := len(lc.Stream.Elems[0].Bytes())
+		if err := prepTwin(ctlA, nil); err != nil {
+			t.Fatalf("harness: %v", err)
+		}
+		if err := prepTwin(ctlB, nil); err != nil {
+			t.Fatalf("harness: %v", err)
+		}
+		one, _, p1, _ := sendCase(twinA.Addr, lc, nil)
+		two, _, p2, _ := sendCase(twinB.Addr, lc, []int{cut})
+		vA, _ := ctlA.Do("GET", "probe", "p", "POINT")
+		vB, _ := ctlB.Do("GET", "probe", "p", "POINT")
+		problem := ""
+		switch {
+		case strings.HasPrefix(p1, "harness:") || strings.HasPrefix(p2, "harness:"):
+			t.Fatalf("harness: %s %s", p1, p2)
+		case fmt.Sprint(one) != fmt.Sprint(two) || p1 != p2:
+			problem = fmt.Sprintf("one segment: replies %q (%s); cut in front of the request: replies %q (%s)", one, p1, two, p2)
+		case len(two) < 1 || two[0] != "+OK":
+			problem = fmt.Sprintf("the SET in front of the request was not answered with +OK: %q", two)
+		case vA.Kind != '*' || !vA.Equal(vB):
+			problem = fmt.Sprintf("the SET in front of the request was not applied identically: GET after one segment %s, after two %s", vA, vB)
+		}
+		if problem != "" {
+			what := fmt.Sprintf("`SET probe p POINT 1 2` + %q: %s", frame, problem)
+			if ev.KnownActive(emptyHTTPID) {
+				c.Known(emptyHTTPID, what)
+			} else {
+				c.Violation(emptyHTTPID, what, lc)
+				t.Errorf("VIOLATION-CANDIDATE key=%s: %s", emptyHTTPID, what)
+			}
+			c.Label("probe-reproduces:" + emptyHTTPID)
+			break
+		}
+		c.Label("probe-ok:" + emptyHTTPID)
+	}
+	if _, n := usableBadFrames(); n > 0 {
+		c.Excluded(emptyHTTPID)
+	}
+	if t.Failed() {
+		c.Note("random live-errtail cases skipped: the deterministic probe already fails")
+		return
+	}
 	hangSeen = false
 	ev.Rapid("live-errtail", ev.Pick(120, 1500))
 	rapid.Check(t, func(rt *rapid.T) {
@@ -113,7 +162,7 @@ func TestC16_LiveErrTail(t *testing.T) {
 func TestC16_SegErrTail(t *testing.T) {
 	c := ev.New("C16", "seg-errtail", "exploration")
 	t.Cleanup(c.Flush)
-	c.Rule("1-8 valid commands in RESP/telnet/native/HTTP/WebSocket encodings followed by ONE malformed frame from a catalogue of 21 (non-numeric, negative, overflowing or unterminated RESP bulk/multibulk headers, wrong type byte, unbalanced telnet quotes, bad native lengths, malformed HTTP request lines) and optional trailing bytes; ground truth: PipelineReader.ReadMessages delivers exactly the messages of the valid commands and then the catalogue's error text — uncut, under EVERY 2-way cut, byte-at-a-time and 3 random k-way cuts. First every catalogue entry is checked alone. Non-trivial: a cut at or before the start of the malformed frame with at least one valid command in front of it in the same read of the uncut run; distinct by (malformed frame, protocol of the command in front, cut region, prefix length).")
+	c.Rule("1-8 valid commands in RESP/telnet/native/HTTP/WebSocket encodings followed by ONE malformed frame from a catalogue of 26 (empty HTTP requests `GET /`, `POST /` with Content-Length 0, blank-only paths, non-numeric, negative, overflowing or unterminated RESP bulk/multibulk headers, wrong type byte, unbalanced telnet quotes, bad native lengths, malformed HTTP request lines) and optional trailing bytes; ground truth: PipelineReader.ReadMessages delivers exactly the messages of the valid commands and then the catalogue's error text — uncut, under EVERY 2-way cut, byte-at-a-time and 3 random k-way cuts. First every catalogue entry is checked alone. Non-trivial: a cut at or before the start of the malformed frame with at least one valid command in front of it in the same read of the uncut run; distinct by (malformed frame, protocol of the command in front, cut region, prefix length).")
 	// the catalogue itself
 	for _, bf := range badFrames {
 		c.Case()
@@ -124,6 +173,41 @@ func TestC16_SegErrTail(t *testing.T) {
 		}
 	}
 	if t.Failed() {
+		return
+	}
+	// regression probe (in-package): SET + empty HTTP request in one read vs cut in front of the request
+	{
+		c.Case()
+		set := encRESP([]string{"SET", "k1", "a", "POINT", "1", "2"})
+		b := append(append([]byte(nil), set...), "GET / HTTP/1.1\r\n\r\n"...)
+		one := readAll([][]byte{b})
+		two := readAll([][]byte{b[:len(set)], b[len(set):]})
+		d := diffResults(two, one)
+		if d == "" && (len(one.Msgs) != 1 || one.Err != "invalid HTTP request") {
+			d = fmt.Sprintf("%d messages, error %q; expected the SET and then \"invalid HTTP request\"", len(one.Msgs), one.Err)
+		}
+		if d != "" {
+			what := "ReadMessages over `SET k1 a POINT 1 2` + `GET / HTTP/1.1\\r\\n\\r\\n`: cut in front of the request vs one read: " + d + " (the SET parsed from the same read is dropped)"
+			if ev.KnownActive(emptyHTTPID) {
+				c.Known(emptyHTTPID, what)
+			} else {
+				c.Violation(emptyHTTPID, what, bytesInput(b, []int{len(set)}, []string{"probe"}))
+				t.Errorf("VIOLATION-CANDIDATE key=%s: %s", emptyHTTPID, what)
+			}
+			c.Label("probe-reproduces:" + emptyHTTPID)
+		} else {
+			c.Label("probe-ok:" + emptyHTTPID)
+		}
+	}
+	if _, n := usableBadFrames(); n > 0 {
+		for i := 0; i < n; i++ {
+			c.Excluded(emptyHTTPID)
+		}
+	}
+	if t.Failed() {
+		// rapid refuses a *testing.T that has already failed; the random search would
+		// only rediscover the probe's defect
+		c.Note("random seg-errtail cases skipped: the deterministic probe already fails")
 		return
 	}
 	o := streamOpts{http: true, binary: true, protos: allProtos, noFlush: false}
